@@ -318,6 +318,33 @@ func rtStubs(m map[string]stubFn) {
 		}
 		return nil
 	}
+	m[RT+"Forced"] = func(e *Engine, fn *ssa.Function, a []Value) Value {
+		// returns constant true when the path condition entails c (so that guarded assumptions become
+		// unguarded and their bounds can be used syntactically); otherwise c itself
+		c := a[0].(*Term)
+		if c.IsConst() {
+			return c
+		}
+		v := e.record(func() uint64 {
+			e.ensureFeasible()
+			if e.sol.CheckWith(Not(c)) == "unsat" {
+				return 1
+			}
+			return 0
+		})
+		if v == 1 {
+			return BoolC(true)
+		}
+		return c
+	}
+	m[RT+"Appended"] = func(e *Engine, fn *ssa.Function, a []Value) Value {
+		for _, ev := range e.world.events {
+			if ev.Kind == EvAppend && ev.A != nil && !(ev.A.Op == "c" && ev.A.C == 0) {
+				return BoolC(true)
+			}
+		}
+		return BoolC(false)
+	}
 	m[RT+"AccessCount"] = func(e *Engine, fn *ssa.Function, a []Value) Value { return c64(e.world.accessCount) }
 	m[RT+"Events"] = func(e *Engine, fn *ssa.Function, a []Value) Value {
 		// materialise []verifrt.Event{Kind, A, B uint64; Obj interface{}}
